@@ -1320,6 +1320,111 @@ fn gen_c18_case(r: &mut Rng, stats: &mut HashMap<String, usize>) -> (String, Vec
     (format!("plant={variant}"), cmds)
 }
 
+const ADV_IDENTS: [&str; 14] = ["c", "C", "cc", "cx", "é", "cé", "ccé", "_", "c_", "x", "qreg", "pi", "h2", "averyveryveryveryveryverylongidentifiernamethatneverends"];
+
+/// C12: mutated / adversarial source strings: parse, interpret and (when small) execute.
+fn gen_fuzz_case(r: &mut Rng, stats: &mut HashMap<String, usize>) -> (String, Vec<String>) {
+    let p = qgen::gen_program(r, 4, true);
+    let mut all = p.decls.clone();
+    all.extend(p.stmts.clone());
+    let mut src = join_src(&all);
+    let kind = r.below(12);
+    let label = match kind {
+        0 => {
+            // token-level: drop / duplicate / swap whitespace-separated pieces
+            let mut toks: Vec<String> = src.split_inclusive(|c: char| c == ' ' || c == ';' || c == ',').map(|s| s.to_string()).collect();
+            for _ in 0..r.range(1, 3) {
+                if toks.is_empty() { break; }
+                let i = r.below(toks.len());
+                match r.below(3) {
+                    0 => { toks.remove(i); }
+                    1 => { let t = toks[i].clone(); toks.insert(i, t); }
+                    _ => { let j = r.below(toks.len()); toks.swap(i, j); }
+                }
+            }
+            src = toks.concat();
+            "tokens"
+        }
+        1 => {
+            // character-level edits (kept valid UTF-8)
+            let mut cs: Vec<char> = src.chars().collect();
+            for _ in 0..r.range(1, 4) {
+                if cs.is_empty() { break; }
+                let i = r.below(cs.len());
+                match r.below(3) {
+                    0 => { cs.remove(i); }
+                    1 => cs.insert(i, *r.pick(&['(', ')', '[', ']', '{', '}', ';', ',', '-', '>', '=', '"', 'é', '0', 'c', '^', '*', '/', ' ', '\n', '.'][..])),
+                    _ => cs[i] = *r.pick(&['(', ')', '[', ']', ';', 'c', 'C', '9', 'e', '-'][..]),
+                }
+            }
+            src = cs.into_iter().collect();
+            "chars"
+        }
+        2 => { src.truncate(r.below(src.len() + 1)); while !src.is_char_boundary(src.len()) { src.pop(); } "truncated" }
+        3 => {
+            // adversarial gate names
+            let name = *r.pick(&ADV_IDENTS[..]);
+            let q = p.env.qubits();
+            src.push_str(&format!("\n{name} {};", q[r.below(q.len())]));
+            if r.chance(1, 2) { src.push_str(&format!("\n{name}(0.5) {},{};", q[0], q[q.len() - 1])); }
+            "gate-name"
+        }
+        4 => {
+            // adversarial register / gate definitions
+            let name = *r.pick(&ADV_IDENTS[..]);
+            src = format!("qreg {name}[2];\ncreg {name}c[2];\ngate {name}g a {{ h a; }}\n{name}g {name}[0];\nmeasure {name} -> {name}c;\n{src}");
+            "ident"
+        }
+        5 => {
+            // (mutually) recursive gate definitions
+            let depth = r.range(1, 4);
+            let mut defs = String::new();
+            for i in 0..depth {
+                defs.push_str(&format!("gate rec{i} a {{ rec{} a; }}\n", (i + 1) % depth));
+            }
+            src = format!("{src}\n{defs}rec0 {};", p.env.qubits()[0]);
+            "recursion"
+        }
+        6 => {
+            // numbers: huge, negative, odd literals
+            let lit = *r.pick(&["99999999999999999999", "-1", "2147483648", "00", "1e400", "0x10", "1.", ".5", "1e", "64", "63"][..]);
+            src = match r.below(3) {
+                0 => format!("qreg big[{lit}];\n{src}"),
+                1 => format!("{src}\nrx({lit}) {};", p.env.qubits()[0]),
+                _ => format!("{src}\nx {}[{lit}];", p.env.qregs[0].0),
+            };
+            "numbers"
+        }
+        7 => {
+            // nesting of if (bounded: deep nesting overflows the external parser, a known finding)
+            let d = r.range(1, 30);
+            let c = p.env.cregs.first().map(|c| c.0.clone()).unwrap_or("c".into());
+            src = format!("{src}\n{}x {};", format!("if({c}==0) ").repeat(d), p.env.qubits()[0]);
+            "nested-if"
+        }
+        8 => {
+            // parameter expressions: odd but finite
+            let e = *r.pick(&["--1", "+-+1", "2^3^2", "((((1))))", "1-", "()", "sqrt()", "sqrt(1,2)", "max(1)", "atan2(1)", "foo(1)", "pi pi", "2pi", "1e-3", "abs(-2)", "5 % 3", "ln(2.718281828)"][..]);
+            src = format!("{src}\nrz({e}) {};", p.env.qubits()[0]);
+            "expr"
+        }
+        9 => { src = String::new(); "empty" }
+        10 => { src = format!("OPENQASM {};\n{src}", *r.pick(&["2.0", "3.0", "2", "", "x"][..])); "version" }
+        _ => "valid",
+    };
+    *stats.entry(format!("mut.{label}")).or_default() += 1;
+    // a source whose last token is an identifier never returns from the external lexer
+    // (known finding D21); the generated stream stays clear of it
+    if src.chars().last().map(|c| c.is_alphanumeric() || c == '_').unwrap_or(false) {
+        src.push('\n');
+    }
+    let mut cmds = vec!["inew".to_string(), format!("iadd {}", hex(&src))];
+    // execution is attempted by the driver-independent rule: accepted and small
+    cmds.push("isym new".into());
+    cmds.push(format!("isym finish {}", r.next() >> 1));
+    (format!("mut={label}"), cmds)
+}
+
 /// C09: one call of gates::process per case, every accepted name.
 fn gen_c09_case(r: &mut Rng, stats: &mut HashMap<String, usize>) -> (String, Vec<String>) {
     let nq = r.range(1, 5);
@@ -1475,6 +1580,7 @@ pub fn run(suite: &str, seed: u64, count: usize, kv: &HashMap<String, String>, t
             "c17" => gen_c17_case(&mut r, &mut stats),
             "c18" => gen_c18_case(&mut r, &mut stats),
             "c09" => gen_c09_case(&mut r, &mut stats),
+            "fuzz" => gen_fuzz_case(&mut r, &mut stats),
             "dft" => gen_dft_case(&mut r, max_n, max_thr, &mut stats),
             other => panic!("unknown suite {other}"),
         };
